@@ -1,4 +1,5 @@
 import Crusta.Proofs.Oracle
+import Crusta.Proofs.StaticAll
 
 /-! # C02 — credulous acceptance (property theorems) -/
 
@@ -20,5 +21,24 @@ theorem no_extension_no_credulous (af : AF) (hwf : af.WF) (σ : Sem) (a : Nat)
   · rfl
   · obtain ⟨S, hS, _⟩ := (credB_iff σ af hwf [a]).1 hc
     exact absurd ⟨S, hS⟩ h
+
+
+/-- **C02 on the solver programs**: the status of a credulous query (with or without certificate)
+is YES exactly when some extension of `g` contains one of the queried arguments — for every
+solver type offering the query, every sound run -/
+theorem credulous_status_exact (sk : SolverKind) (cfg : Cfg) (hcfg : CfgOK sk cfg) (v : FwView) (g : G) (hv : v.Ok g)
+    (cert : Bool) (args : List Nat) (hargs : ∀ a ∈ args, g.live a = true)
+    (p : Prog Ans) (hp : entryProg sk cfg v (.dc cert args) = some p) (w : World) (hb : w.Bounded)
+    (rs : List Reply) (hs : RunSound p rs w) (a : AccAns) (cv : Bool) (w' : World)
+    (hrun : interp p rs w = (.done (.acc a cv), w')) :
+    (a.status = true ↔ ∃ S, sk.sem.GExt g S ∧ HitsL args S) := by
+  have h := static_answers_conform sk cfg hcfg v g hv (.dc cert args) (fun x hx => hargs x hx) p hp w hb rs hs _ w' hrun
+  obtain ⟨_, hdc, _⟩ := h
+  constructor
+  · intro hst; exact (hdc.1 hst).1
+  · intro hex
+    cases hst : a.status with
+    | true => rfl
+    | false => exact absurd hex (hdc.2 hst).1
 
 end Crusta.C02
